@@ -148,4 +148,7 @@ def partial_injections(n_other, n_self, max_size=None):
         for src in itertools.combinations(range(n_other), r):
             for dst in itertools.permutations(range(n_self), r):
                 out.append(dict(zip(src, dst)))
+                if r >= 2:
+                    # the same declaration written down in the opposite order (dict insertion order is not part of its meaning)
+                    out.append(dict(zip(reversed(src), reversed(dst))))
     return out
